@@ -93,7 +93,10 @@ def proj_cut(x0, k):
 
 def proj_pair(rng):
     """(forward, backward, kind): exact inverses of each other where both are finite"""
-    kind = rng.choice(["aff", "aff", "aff", "swap", "quad", "cut"])
+    kind = rng.choice(["aff", "aff", "aff", "swap", "quad", "cut", "cutb"])
+    if kind == "cutb":  # the BACK transformer has no answer beyond a meridian (fixed up by the caller once the grid is known)
+        k = 2.0 ** rng.randint(-2, 2)
+        return proj_aff(k, k, 0, 0), None, kind
     if kind == "aff":
         kx, ky = (2.0 ** rng.randint(-3, 3) * rng.choice([1, 1, -1]) for _ in range(2))
         ox, oy = rng.randint(-64, 64) / 4, rng.randint(-64, 64) / 4
@@ -147,6 +150,8 @@ def judge_top(R, case, r, S6, D6, sshape, dshape, sgeo, dgeo, pb, kind, pad, sam
     dst_clamped = dgeo and not corners_in_range(D6, dshape)
     if dst_clamped and not ((S6[1] == 0 and S6[3] == 0 or S6[0] == 0 and S6[4] == 0) and (D6[1] == 0 and D6[3] == 0 or D6[0] == 0 and D6[4] == 0)):
         return  # clamp + shear: the image of the rectangle is no longer spanned by the corner images
+    if dst_clamped and pad == 0:
+        return  # a clamp plateau puts many centres exactly ON the extreme sample: with no padding the half-open region ends there
     Si = finv(S6)
     (ys, xs), (yd, xd) = r.roi_src, r.roi_dst
     within = (0 <= yd.start <= dshape[0] and 0 <= yd.stop <= dshape[0] and 0 <= xd.start <= dshape[1] and 0 <= xd.stop <= dshape[1]
@@ -388,6 +393,8 @@ def run_top(R: Run, only_plans=False):
         ca, cb = CRS(a), CRS(b)
         S, D = world_affine(ca.geographic), world_affine(cb.geographic)
         pf, pb, kind = proj_pair(rng)
+        if pb is None:
+            pb = proj_cut(rng.randint(-40, 120) / 2, 1 / float(pf.ffn((Fraction(1), Fraction(1)))[0]))
         src, dst = gb((8, 8), S, ca), gb((8, 8), D, cb)
         pts = [(dyq(2, -10, 30), dyq(2, -10, 30)) for _ in range(rng.randint(1, 8))]
         for (P_, Q_, g_, pj, which) in ((S, D, ca.geographic, pf, "fwd"), (D, S, cb.geographic, pb, "back")):
@@ -442,11 +449,16 @@ def run_top(R: Run, only_plans=False):
         elif kind == "swap":
             k = float(pf.ffn((0, 1))[0])
             D = Affine(0, k, 0, k, 0, 0) * S * Mx
-        elif kind == "cut":
+        elif kind in ("cut", "cutb"):
             k = float(pf.ffn((Fraction(-10**6), Fraction(1)))[1])
             D = Affine.scale(k) * S * Mx
+            if kind == "cutb":  # no image for destination world x beyond the meridian through a random destination pixel corner
+                cx0 = (D * (rng.randint(0, dshape[1]), rng.randint(0, dshape[0])))[0]
+                pb = proj_cut(cx0, 1 / k)
         else:
             D = S * Mx
+        if pb is None:
+            pb = proj_cut(0.0, 1.0)
         if rng.random() < 0.03:  # singular grids: TransformNotInvertibleError on one side or the other
             if rng.random() < 0.5:
                 S = Affine(S.a, S.b, S.c, 0, 0, S.f)
@@ -510,8 +522,12 @@ def run_top(R: Run, only_plans=False):
                         w_ = clamp_geo(w_)
                     return fapply(Si_, pb.ffn(w_))
 
-                xr, xl, yu, yd2 = bk((cx_ + 1, cy_)), bk((cx_ - 1, cy_)), bk((cx_, cy_ + 1)), bk((cx_, cy_ - 1))
-                if (xr[0] - xl[0]) * (yu[1] - yd2[1]) - (yu[0] - yd2[0]) * (xr[1] - xl[1]) == 0:
+                try:
+                    xr, xl, yu, yd2 = bk((cx_ + 1, cy_)), bk((cx_ - 1, cy_)), bk((cx_, cy_ + 1)), bk((cx_, cy_ - 1))
+                    degenerate = (xr[0] - xl[0]) * (yu[1] - yd2[1]) - (yu[0] - yd2[0]) * (xr[1] - xl[1]) == 0
+                except TypeError:  # a stencil point without image: not this class
+                    degenerate = False
+                if degenerate:
                     R.count("top|gbx|degenerate-local-map-not-compared")
                     continue
         if (not res and out == "ERR:ValueError" and not same and not singular and cb.geographic
